@@ -134,7 +134,7 @@ type cvfSchedule struct {
 	Backend    string `json:"backend"`
 	OnDisk     bool   `json:"on_disk"`
 	LateFirst  bool   `json:"late_candidate_batch_opened_first"`
-	Blocker    string `json:"parked"` // "finalizer@<point>" | "late-commit@<point>" | "none"
+	Blocker    string `json:"parked"`    // "finalizer@<point>" | "late-commit@<point>" | "none"
 	FollowUp   int    `json:"follow_up"` // 0 none, 1 next version, 2 next version + prune
 	BaseKeys   int    `json:"base_keys"`
 	LateResult string `json:"late_commit_result"`
@@ -443,7 +443,13 @@ func runCommitVsFinalize(r *evid.Run, idx int) {
 		case rr.Mismatch != "":
 			viol("finalized-root-serves-wrong-data", fmt.Sprintf("finalized root %s returns wrong data without an error: %s", f.name, rr.Mismatch), nil)
 		case rr.Err != "":
-			viol("finalized-root-unreadable-"+rr.ErrClass, fmt.Sprintf("finalized root %s is unreadable: %s", f.name, rr.Err), nil)
+			cls := rr.ErrClass
+			if rr.Stage == "panic" {
+				cls = "read-panics"
+			} else if len(cls) < 3 || cls[:3] != "Err" {
+				cls = "other-error"
+			}
+			viol("finalized-root-unreadable-"+cls, fmt.Sprintf("finalized root %s is unreadable: %s", f.name, rr.Err), nil)
 		case !has:
 			viol("hasroot-false-for-finalized-root", fmt.Sprintf("HasRoot(%s) = false", f.name), nil)
 		}
